@@ -1755,3 +1755,116 @@ func ruleC03b(c *Ctx, r *Report) {
 		}
 	}
 }
+
+func init() { register("C34", "", ruleC34cd) }
+
+// ruleC34cd: (ER-C34c) a failed block fetch leaves the cached block untouched: no store to curr/max lies on any path to
+// an error return of getSeqFromDB; (ER-C34d) test, fetch and increment are one critical section: NextSeq calls
+// getSeqFromDB with s.lock held, takes the lock once and releases it only by defer, and getSeqFromDB does not touch the lock.
+func ruleC34cd(c *Ctx, r *Report) {
+	lockF := c.Field("proxy/sequence", "MySQLSequence", "lock")
+	get := c.Method("proxy/sequence", "MySQLSequence", "getSeqFromDB")
+	next := c.Method("proxy/sequence", "MySQLSequence", "NextSeq")
+	currF := c.Field("proxy/sequence", "MySQLSequence", "curr")
+	maxF := c.Field("proxy/sequence", "MySQLSequence", "max")
+	if lockF == nil || get == nil || next == nil || currF == nil || maxF == nil {
+		r.undecided("ER-C34c", "proxy/sequence.MySQLSequence", "anchor", "-", "anchors not found")
+		return
+	}
+	r.floor("ER-C34c", 3)
+	r.floor("ER-C34d", 3)
+	isStateStore := func(in ssa.Instruction) bool {
+		st, ok := in.(*ssa.Store)
+		if !ok {
+			return false
+		}
+		f := fieldOfAddr(st.Addr)
+		return f == currF || f == maxF
+	}
+	gn := c.FuncName(get)
+	n := 0
+	for _, ret := range returnsOf(get) {
+		isNil, known := returnsNilError(ret)
+		if known && isNil {
+			continue
+		}
+		n++
+		cons := fmt.Sprintf("error-return#%d:state-untouched", n)
+		_, max := countOnPaths(get, ret, isStateStore)
+		if max == 0 {
+			r.ok("ER-C34c", gn, cons, c.Pos(exitPos(ret)), "no store to curr/max on any path to this failure")
+		} else {
+			r.viol("ER-C34c", gn, cons, c.Pos(exitPos(ret)), "the fetch can fail after it already overwrote curr or max: later requests skip the fetch and count on from a half-installed block (values that were never allocated, or are issued again)")
+		}
+	}
+	if n == 0 {
+		r.undecided("ER-C34c", gn, "error-return", c.Pos(get.Pos()), "no failing return")
+	}
+	nn := c.FuncName(next)
+	for _, ci := range callsIn(next, func(cc *ssa.CallCommon) bool { return callsFunc(cc, get) }) {
+		if c.lockHeldAt(next, ci, lockF) {
+			r.ok("ER-C34d", nn, "fetch-under-lock", c.Pos(ci.Pos()), "the block fetch runs with s.lock held")
+		} else {
+			r.viol("ER-C34d", nn, "fetch-under-lock", c.Pos(ci.Pos()), "the block fetch runs without s.lock: two sessions can both see the block exhausted, fetch, and install out of order (values go backwards or are issued twice)")
+		}
+	}
+	locks, unlocks, deferred := 0, 0, 0
+	count := func(fn *ssa.Function) {
+		allInstrs(fn, func(in ssa.Instruction) {
+			cc := callCommon(in)
+			if cc == nil {
+				return
+			}
+			f := cc.StaticCallee()
+			if f == nil || f.Pkg == nil || f.Pkg.Pkg.Path() != "sync" || len(cc.Args) == 0 || muFieldOf(cc.Args[0]) != lockF {
+				return
+			}
+			switch f.Name() {
+			case "Lock":
+				locks++
+			case "Unlock":
+				if _, isD := in.(*ssa.Defer); isD {
+					deferred++
+				} else {
+					unlocks++
+				}
+			}
+		})
+	}
+	count(next)
+	// no access to the cached block (and no fetch) may follow a release of the lock inside NextSeq
+	reacq := false
+	allInstrs(next, func(in ssa.Instruction) {
+		call, ok := in.(*ssa.Call)
+		if !ok {
+			return
+		}
+		f := call.Call.StaticCallee()
+		if f == nil || f.Pkg == nil || f.Pkg.Pkg.Path() != "sync" || f.Name() != "Unlock" || len(call.Call.Args) == 0 || muFieldOf(call.Call.Args[0]) != lockF {
+			return
+		}
+		searchExits(next, in, nil, SearchOpts{Stop: func(x ssa.Instruction) bool {
+			if fa, ok := x.(*ssa.FieldAddr); ok && (fieldOfAddr(fa) == currF || fieldOfAddr(fa) == maxF) {
+				reacq = true
+				return true
+			}
+			if cc := callCommon(x); cc != nil && callsFunc(cc, get) {
+				reacq = true
+				return true
+			}
+			return false
+		}})
+	})
+	if locks >= 1 && !reacq {
+		r.ok("ER-C34d", nn, "single-critical-section", c.Pos(next.Pos()), "nothing touches the cached block after the lock was released: test, fetch and increment are one critical section")
+	} else {
+		r.viol("ER-C34d", nn, "single-critical-section", c.Pos(next.Pos()), fmt.Sprintf("NextSeq releases the lock and touches the cached block again (Lock×%d, Unlock×%d, deferred×%d): the exhaustion test and the increment are not one atomic step", locks, unlocks, deferred))
+	}
+	locks, unlocks, deferred = 0, 0, 0
+	count(get)
+	if locks+unlocks+deferred == 0 {
+		r.ok("ER-C34d", gn, "no-lock-juggling", c.Pos(get.Pos()), "the fetch runs inside its caller's critical section")
+	} else {
+		r.viol("ER-C34d", gn, "no-lock-juggling", c.Pos(get.Pos()), "the fetch takes or releases s.lock itself: the caller's critical section is split")
+	}
+}
